@@ -6,6 +6,7 @@ import (
 	"io"
 	"testing"
 
+	"github.com/biogo/hts/bam"
 	"github.com/biogo/hts/bgzf"
 	"github.com/biogo/hts/bgzf/cache"
 )
@@ -66,6 +67,10 @@ type c09Case struct {
 	Delay int       `json:"delay"`
 	Fault Fault     `json:"fault"`
 	Combo int       `json:"combo"`
+	// BAM-level workloads (sides bamwriter, bamreader)
+	Hdr  *HdrSpec  `json:"hdr,omitempty"`
+	Recs []RecSpec `json:"recs,omitempty"`
+	WC   int       `json:"wc,omitempty"`
 }
 
 type c09Combo struct {
@@ -74,6 +79,11 @@ type c09Combo struct {
 	nRead  int
 	nSeek  int
 }
+
+// c09MaxIndex bounds the enumerated call index per workload (all listed
+// workloads need fewer underlying calls in their fault-free run; the bound
+// only protects the enumeration against a change that multiplies the calls).
+const c09MaxIndex = 40
 
 type c09Desc struct {
 	combo int
@@ -164,6 +174,27 @@ func (p *c09) Init(t *testing.T, seed uint64, tier string) {
 			}
 		}
 	}
+	// BAM-level workloads: a fixed header and record list
+	{
+		gt := NewTape(99, "C09-bam", 0)
+		h := HdrSpec{SO: "unsorted", Refs: []RefSpec{{"chr1", 100000}, {"chr2", 50000}}}
+		var recs []RecSpec
+		for i := 0; i < 9; i++ {
+			size := 0
+			if i == 4 {
+				size = 1 // around the inline buffer
+			}
+			recs = append(recs, genRec(gt, len(h.Refs), size, i))
+		}
+		for _, wc := range []int{1, 2} {
+			hh := h
+			p.combos = append(p.combos, c09Combo{c: c09Case{Side: "bamwriter", Hdr: &hh, Recs: recs, WC: wc}})
+		}
+		for _, rd := range []int{1, 2, 4} {
+			hh := h
+			p.combos = append(p.combos, c09Combo{c: c09Case{Side: "bamreader", Hdr: &hh, Recs: recs, RD: rd, Kind: "read+seek"}})
+		}
+	}
 	// fault-free counting runs (all-zero tape: the simplest schedule)
 	for i := range p.combos {
 		cb := &p.combos[i]
@@ -176,8 +207,8 @@ func (p *c09) Init(t *testing.T, seed uint64, tier string) {
 			wr, rdc, sk = wr+1, rdc+1, sk+1
 		}
 		cb.nWrite, cb.nRead, cb.nSeek = wr, rdc, sk
-		if cb.c.Side == "writer" {
-			for k := 0; k <= wr; k++ {
+		if cb.c.Side == "writer" || cb.c.Side == "bamwriter" {
+			for k := 0; k <= wr && k <= c09MaxIndex; k++ {
 				for _, kind := range []string{"err", "partial"} {
 					for _, pers := range []bool{false, true} {
 						p.descs = append(p.descs, c09Desc{i, Fault{Op: "write", At: k, Kind: kind, Persistent: pers}})
@@ -185,14 +216,14 @@ func (p *c09) Init(t *testing.T, seed uint64, tier string) {
 				}
 			}
 		} else {
-			for k := 0; k <= rdc+1; k++ {
+			for k := 0; k <= rdc+1 && k <= c09MaxIndex; k++ {
 				for _, kind := range []string{"err", "partial"} {
 					for _, pers := range []bool{false, true} {
 						p.descs = append(p.descs, c09Desc{i, Fault{Op: "read", At: k, Kind: kind, Persistent: pers}})
 					}
 				}
 			}
-			for k := 0; k <= sk; k++ {
+			for k := 0; k <= sk && k <= c09MaxIndex; k++ {
 				for _, pers := range []bool{false, true} {
 					p.descs = append(p.descs, c09Desc{i, Fault{Op: "seek", At: k, Kind: "err", Persistent: pers}})
 				}
@@ -254,8 +285,13 @@ func mkCache(kind string, capacity int) bgzf.Cache {
 func (p *c09) exec(x *Exec, c *c09Case) (vd *Verdict, nW, nR, nS int) {
 	vd = &Verdict{}
 	x.StmtYields = false
-	if c.Side == "writer" {
+	switch c.Side {
+	case "writer":
 		return p.execWriter(x, c, vd)
+	case "bamwriter":
+		return p.execBAMWriter(x, c, vd)
+	case "bamreader":
+		return p.execBAMReader(x, c, vd)
 	}
 	return p.execReader(x, c, vd)
 }
@@ -459,9 +495,180 @@ func (p *c09) execReader(x *Exec, c *c09Case, vd *Verdict) (*Verdict, int, int, 
 	return vd, 0, nR, nS
 }
 
+// bamImage builds the BAM file of a bamreader case with the independent encoders.
+func (c *c09Case) bamImage() []byte {
+	stream := c.Hdr.EncodeBAMHeader()
+	img := EncodeMember(stream, MemberOpts{Level: 1, OS: 0xff})
+	var cur []byte
+	for i := range c.Recs {
+		cur = append(cur, c.Recs[i].EncodeBAM()...)
+		if i%2 == 1 || i == len(c.Recs)-1 {
+			img = append(img, EncodeMember(cur, MemberOpts{Level: 1, OS: 0xff})...)
+			cur = nil
+		}
+	}
+	return append(img, SpecEOF...)
+}
+
+func (p *c09) execBAMWriter(x *Exec, c *c09Case, vd *Verdict) (*Verdict, int, int, int) {
+	file := &File{X: x, Name: "f", MaxDelay: c.Delay}
+	if c.Fault.Op == "write" {
+		file.Faults = []Fault{c.Fault}
+	}
+	type callRes struct {
+		op  string
+		err error
+	}
+	var calls []callRes
+	var buildErr error
+	x.Procs = 2
+	res := x.RunSim("bamwrite", 300+60*len(c.Recs), func() {
+		h, err := c.Hdr.SamHeader()
+		if err != nil {
+			buildErr = err
+			return
+		}
+		bw, err := bam.NewWriter(file.W(), h, c.WC)
+		calls = append(calls, callRes{"new", err})
+		if err != nil {
+			return
+		}
+		for i := range c.Recs {
+			rec, err := c.Recs[i].SamRecord(h)
+			if err != nil {
+				buildErr = err
+				return
+			}
+			calls = append(calls, callRes{"write", bw.Write(rec)})
+		}
+		calls = append(calls, callRes{"close", bw.Close()})
+	})
+	nW := file.Writes
+	fired := len(file.Fired) > 0
+	if fired {
+		x.Probe("bamwriter_fault_fired")
+	}
+	if v, inc := StructuralViolation("bamwrite", &res); v != nil || inc != "" {
+		vd.V, vd.Inconcl = v, inc
+		return vd, nW, 0, 0
+	}
+	if buildErr != nil {
+		panic("c09: building BAM inputs: " + buildErr.Error())
+	}
+	last := calls[len(calls)-1]
+	if last.op == "close" && len(res.LiveLib) > 0 {
+		vd.V = &Violation{Kind: "leak", Class: fmt.Sprintf("leak:bamwriter:%v", describeSites(res.LiveLib)),
+			Msg: fmt.Sprintf("after bam.Writer.Close returned %d library goroutine(s) remain: %v", len(res.LiveLib), describe(res.LiveLib))}
+		return vd, nW, 0, 0
+	}
+	seenErr := -1
+	for i, cr := range calls {
+		if cr.err != nil && seenErr < 0 {
+			seenErr = i
+		}
+		if seenErr >= 0 && cr.err == nil {
+			vd.V = Mismatch("bam-error-forgotten", "call %d (%s) returned an error (%v) but the later call %d (%s) returned nil", seenErr, calls[seenErr].op, calls[seenErr].err, i, cr.op)
+			return vd, nW, 0, 0
+		}
+	}
+	if fired && last.err == nil {
+		vd.V = Mismatch("bam-fault-swallowed", "underlying write failed (%v) but the last call (%s) returned nil", file.Fired, last.op)
+		return vd, nW, 0, 0
+	}
+	if !fired && last.err != nil {
+		vd.V = Mismatch("bam-spurious-error", "no fault fired but %s = %v", last.op, last.err)
+		return vd, nW, 0, 0
+	}
+	vd.NonTrivial = fired && res.Goroutines > 2
+	vd.Sample = map[string]interface{}{"side": c.Side, "wc": c.WC, "fault": c.Fault, "fired": file.Fired, "steps": x.Steps, "underlying_writes": nW}
+	return vd, nW, 0, 0
+}
+
+func (p *c09) execBAMReader(x *Exec, c *c09Case, vd *Verdict) (*Verdict, int, int, int) {
+	img := c.bamImage()
+	file := &File{X: x, Name: "f", Data: img, MaxDelay: c.Delay, Chunk: 0}
+	if c.Fault.Op == "read" || c.Fault.Op == "seek" {
+		file.Faults = []Fault{c.Fault}
+	}
+	var bad *Violation
+	x.Procs = 2
+	res := x.RunSim("bamread", estReadSteps(len(img), 0, c.Kind, c.Delay)*3+60*len(c.Recs), func() {
+		br, err := bam.NewReader(file.As(c.Kind), c.RD)
+		if err != nil {
+			if len(file.Fired) == 0 {
+				bad = Mismatch("bam-open", "bam.NewReader on a valid file without fault = %v", err)
+			}
+			return
+		}
+		h := br.Header()
+		n := 0
+		for {
+			rec, err := br.Read()
+			if err == io.EOF {
+				if n != len(c.Recs) {
+					bad = Mismatch("bam-early-eof", "bam.Reader reported io.EOF after %d of %d records (faults fired: %v)", n, len(c.Recs), file.Fired)
+				}
+				break
+			}
+			if err != nil {
+				break
+			}
+			if n >= len(c.Recs) {
+				bad = Mismatch("bam-extra-record", "record %d returned, the file holds %d", n, len(c.Recs))
+				break
+			}
+			if msg := c.Recs[n].CheckRecord(rec, h, 0); msg != "" {
+				bad = Mismatch("bam-wrong-record", "record %d: %s (faults fired: %v)", n, msg, file.Fired)
+				break
+			}
+			n++
+		}
+		br.Close()
+	})
+	nR, nS := file.Reads, file.Seeks
+	fired := len(file.Fired) > 0
+	if fired {
+		x.Probe("bamreader_fault_fired")
+	}
+	if v, inc := StructuralViolation("bamread", &res); v != nil || inc != "" {
+		vd.V, vd.Inconcl = v, inc
+		return vd, 0, nR, nS
+	}
+	if bad != nil {
+		vd.V = bad
+		return vd, 0, nR, nS
+	}
+	if len(res.LiveLib) > 0 {
+		vd.V = &Violation{Kind: "leak", Class: fmt.Sprintf("leak:bamreader:%v", describeSites(res.LiveLib)),
+			Msg: fmt.Sprintf("after bam.Reader.Close (or a failed NewReader) returned, %d library goroutine(s) remain: %v", len(res.LiveLib), describe(res.LiveLib))}
+		return vd, 0, nR, nS
+	}
+	vd.NonTrivial = fired && res.Goroutines > 1
+	vd.Sample = map[string]interface{}{"side": c.Side, "rd": c.RD, "fault": c.Fault, "fired": file.Fired, "steps": x.Steps, "underlying_reads": nR}
+	return vd, 0, nR, nS
+}
+
 func (p *c09) Shrinks(ci interface{}) []interface{} {
 	c := ci.(*c09Case)
 	var out []interface{}
+	if c.Side == "bamwriter" || c.Side == "bamreader" {
+		for i := range c.Recs {
+			n := *c
+			n.Recs = append(append([]RecSpec(nil), c.Recs[:i]...), c.Recs[i+1:]...)
+			out = append(out, &n)
+		}
+		if c.Delay != 0 {
+			n := *c
+			n.Delay = 0
+			out = append(out, &n)
+		}
+		if c.Fault.At > 0 {
+			n := *c
+			n.Fault.At--
+			out = append(out, &n)
+		}
+		return out
+	}
 	if c.Delay != 0 {
 		n := *c
 		n.Delay = 0
